@@ -68,11 +68,9 @@ let () =
              | CErr e -> render_err fs e
              | CPanic _ -> "panic"
              | CFuel -> "fuel"
-             | COk (((pre, post), penums), m) ->
-               let pe = Stdlib.List.map (fun n ->
-                   (n, match find_enum_annot (Stdlib.List.map snd m) n with Some a -> a | None -> [])) penums in
+             | COk ((pre, post), m) ->
                let props c = Oracle.ask_props (body_text fs c) in
-               (match build props (body_text fs) banned pre post pe with
+               (match build props (body_text fs) banned post with
                 | CErr e -> render_err fs e
                 | CPanic _ -> "panic"
                 | CFuel -> "fuel"
